@@ -197,13 +197,17 @@ class ConvexPolygon(Polygon):
         return Circle(radius, self.center)
 
     def distance_to_surface(self, angles):  # noqa: D102
+        return self._distance_to_surface_from(self.center, angles)
+
+    def _distance_to_surface_from(self, origin, angles):
+        """Distance to the surface measured from ``origin``, a point inside the polygon."""
         # Bring the angles into the range for testing (also handles an
         # np.asarray for us).
         angles = np.mod(angles, 2 * np.pi)
         num_verts = len(self.vertices)
 
         # Rearrange the verts so that we start with the lowest angle
-        verts, _ = _align_points_by_normal(self.normal, self.vertices - self.center)
+        verts, _ = _align_points_by_normal(self.normal, self.vertices - origin)
         angles_to_vertices = np.arctan2(verts[:, 1], verts[:, 0])
         np.mod(angles_to_vertices, 2 * np.pi, out=angles_to_vertices)
 
